@@ -35,11 +35,16 @@ PAGE = "src/structures/paging/page.rs"
 FRAME = "src/structures/paging/frame.rs"
 PT = "src/structures/paging/page_table.rs"
 REC = "src/structures/paging/mapper/recursive_page_table.rs"
+GDT = "src/structures/gdt.rs"
+SEG = "src/registers/segmentation.rs"
+LIB = "src/lib.rs"
+TSS = "src/structures/tss.rs"
 
 # Erased newtypes: nominal type -> underlying integer type.
 NEWTYPES = {
     "VirtAddr": "u64", "PhysAddr": "u64", "PageTableIndex": "u16", "PageOffset": "u16", "PageTableLevel": "u8",
     "Page": "u64", "PhysFrame": "u64", "PageTableEntry": "u64", "PageTableFlags": "u64",
+    "SegmentSelector": "u16", "PrivilegeLevel": "u8", "DescriptorFlags": "u64",
 }
 # Field names of the erased single-field structs (reading the field is the identity).
 NEWTYPE_FIELDS = {"Page": "start_address", "PhysFrame": "start_address", "PageTableEntry": "entry"}
@@ -52,8 +57,13 @@ STRUCTS = {
     "PhysFrameRangeInclusive": [("start", "PhysFrame"), ("end", "PhysFrame")],
 }
 GENERIC_OWNERS = {"Page", "PhysFrame", "PageRange", "PageRangeInclusive", "PhysFrameRange", "PhysFrameRangeInclusive"}
-FLAG_TYPES = {"PageTableFlags"}
-ENUMS = {"PageTableLevel"}
+FLAG_TYPES = {"PageTableFlags", "DescriptorFlags"}
+ENUMS = {"PageTableLevel", "PrivilegeLevel"}
+# Enums with data: name -> [(variant, [payload types])]; erased to the tuple (tag : u8, payload slots...), the slots
+# being the pointwise union of the variants' payloads (unused slots are zero).
+DATA_ENUMS = {"Descriptor": [("UserSegment", ["u64"]), ("SystemSegment", ["u64", "u64"])]}
+# Local aliases introduced by `use ... as X` inside the translated functions.
+TYPE_ALIASES = {"Flags": "DescriptorFlags"}
 WIDTH = {"u64": 64, "i64": 64, "usize": 64, "u32": 32, "i32": 32, "u16": 16, "u8": 8}
 
 
@@ -199,6 +209,18 @@ TARGETS = [
     T(FRAME, GS + "PhysFrameRangeInclusive<S>", "len", "PhysFrameRangeInclusive"),
     T(FRAME, GS + "PhysFrameRangeInclusive<S>", "size", "PhysFrameRangeInclusive"),
     T(FRAME, GS + "Iterator for PhysFrameRangeInclusive<S>", "next", "PhysFrameRangeInclusive"),
+    # lib.rs / segmentation.rs / gdt.rs: privilege levels, selectors, descriptors (C14, C15, C19)
+    T(LIB, "PrivilegeLevel", "from_u16", "PrivilegeLevel"),
+    T(SEG, "SegmentSelector", "new", "SegmentSelector"),
+    T(SEG, "SegmentSelector", "index", "SegmentSelector"),
+    T(SEG, "SegmentSelector", "rpl", "SegmentSelector"),
+    T(SEG, "SegmentSelector", "set_rpl", "SegmentSelector"),
+    T(GDT, "Descriptor", "dpl", "Descriptor"),
+    T(GDT, "Descriptor", "kernel_code_segment", "Descriptor"),
+    T(GDT, "Descriptor", "kernel_data_segment", "Descriptor"),
+    T(GDT, "Descriptor", "user_data_segment", "Descriptor"),
+    T(GDT, "Descriptor", "user_code_segment", "Descriptor"),
+    T(GDT, "Descriptor", "tss_segment_unchecked", "Descriptor"),
     # recursive_page_table.rs: the addresses through which the recursive mapper reaches a page's tables (C20)
     T(REC, None, "p3_page", generic=True, lean="rec_p3_page"),
     T(REC, None, "p2_page", generic=True, lean="rec_p2_page"),
@@ -268,6 +290,11 @@ class P:
             if self.at_id("mut"):
                 self.i += 1
             return self.ty()
+        if self.at("*"):
+            self.i += 1
+            self.eat_id()          # const | mut
+            self.ty()
+            return ("*ptr", [])
         if self.at("("):
             self.i += 1
             items = []
@@ -546,14 +573,19 @@ class P:
                 self.i += 1
                 if self.at("<"):
                     depth = 0
+                    inner = []
                     while True:
                         if self.at("<"):
                             depth += 1
                         elif self.at(">"):
                             depth -= 1
+                        elif self.peek()[0] == "id":
+                            inner.append(self.peek()[1])
                         self.i += 1
                         if depth == 0:
                             break
+                    if path[-1] == "size_of":
+                        path[-1] = "size_of<" + ",".join(inner) + ">"
                     continue
                 path.append(self.eat_id())
             if self.at("("):
@@ -589,9 +621,16 @@ class P:
             return ("pwild",)
         if self.at("("):
             self.i += 1
-            inner = self.eat_id()
+            inner = [self.eat_id()]
+            while self.at(","):
+                self.i += 1
+                inner.append(self.eat_id())
             self.eat(")")
-            return ("pctor", path[-1], inner)
+            if len(path) > 1 and path[0] in DATA_ENUMS:
+                return ("pdata", path, inner)
+            if len(inner) != 1:
+                raise ValueError("constructor pattern with several binders")
+            return ("pctor", path[-1], inner[0])
         if len(path) > 1:
             return ("ppath", path)
         return ("pctor", name, None)
@@ -719,6 +758,9 @@ def nominal(name):
         return Ty(NEWTYPES[name], nom=name)
     if name in STRUCTS:
         return Ty("tuple", [nominal(t) for _, t in STRUCTS[name]], nom=name)
+    if name in DATA_ENUMS:
+        n = max(len(p) for _, p in DATA_ENUMS[name])
+        return Ty("tuple", [Ty("u8")] + [Ty("u64")] * n, nom=name)
     raise ValueError(f"type {name} not in the subset")
 
 
@@ -732,8 +774,10 @@ def conv_ty(t, selfty=None, assoc=None):
         name = selfty
     if assoc and name in assoc:        # `Self::Output`, `Self::Item`
         return assoc[name]
-    if name in NEWTYPES or name in STRUCTS:
+    if name in NEWTYPES or name in STRUCTS or name in DATA_ENUMS:
         return nominal(name)
+    if name == "*ptr":       # raw pointer: its address
+        return Ty("u64")
     if name in WIDTH or name == "bool":
         return Ty(name)
     if name == "U":          # `U: Into<u64>` of the alignment methods: instantiated at u64
@@ -1013,7 +1057,7 @@ class Emit:
         if len(path) == 2 and path[1] == "MAX" and path[0] in WIDTH:
             ty = Ty(path[0])
             return ("p", f"(BitVec.allOnes {ty.width()})", ty)
-        owner = self.impl if path[0] == "Self" else path[0]
+        owner = self.impl if path[0] == "Self" else TYPE_ALIASES.get(path[0], path[0])
         if len(path) == 2 and owner in FLAG_TYPES and (owner, path[1]) in self.ctx.flags:
             ty = nominal(owner)
             return ("p", self.lit(self.ctx.flags[(owner, path[1])], ty), ty)
@@ -1196,7 +1240,26 @@ class Emit:
             return (kk, t, nominal(nt))
         owner = None
         if len(path) == 2:
-            owner = self.impl if path[0] == "Self" else path[0]
+            owner = self.impl if path[0] == "Self" else TYPE_ALIASES.get(path[0], path[0])
+        if len(path) == 1 and path[0].startswith("size_of<"):
+            tyname = path[0][len("size_of<"):-1]
+            if tyname not in self.ctx.sizeof:
+                raise ValueError(f"size_of::<{tyname}>() not known")
+            return ("p", self.lit(self.ctx.sizeof[tyname], Ty("usize")), Ty("usize"))
+        if owner in DATA_ENUMS and any(v == name for v, _ in DATA_ENUMS[owner]):
+            variants = DATA_ENUMS[owner]
+            tag = [v for v, _ in variants].index(name)
+            pay = variants[tag][1]
+            ety = nominal(owner)
+            nslots = len(ety.arg) - 1
+            if len(args) != len(pay):
+                raise ValueError(f"{owner}::{name} applied to {len(args)} arguments")
+            parts = [self.ex(a, env, Ty(t)) for a, t in zip(args, pay)]
+            for pp, t in zip(parts, pay):
+                if not pp[2].same(Ty(t)):
+                    raise ValueError(f"{owner}::{name}: payload of type {pp[2]}")
+            pad = [self.lit(0, Ty("u64"))] * (nslots - len(pay))
+            return self.bind_all(parts, lambda xs: "(" + ", ".join([self.lit(tag, Ty("u8"))] + xs + pad) + ")", ety)
         if name == "new_unsafe" and owner in ("VirtAddr", "PhysAddr"):
             kk, t, ty = self.ex(args[0], env, Ty("u64"))
             return (kk, t, nominal(owner))
@@ -1375,6 +1438,8 @@ class Emit:
                     w = self.fresh()
                     return f"(R.bind ({t}) fun {w} => " + inner.format(w) + ")"
                 raise ValueError("`?` outside Option-returning function")
+            if want is None and e[0] in ("match", "if", "iflet"):
+                want = self.infer(e, env)
             kk, t, ty = self.ex(e, env, want)
             if want is not None and not ty.same(want):
                 raise ValueError(f"let {name}: {want} = <{ty}>")
@@ -1432,6 +1497,40 @@ class Emit:
                 return self.control(e, env, cont, value=False)
             raise ValueError(f"expression statement {e[0]} not in the subset")
         raise ValueError(f"statement {k} not in the subset")
+
+    def infer(self, e, env):
+        """Type of a `match`/`if` expression used as an initialiser: the type of its first value-producing branch."""
+        def tail_ty(stmts, env2):
+            if not stmts or stmts[-1][0] != "tail" or len(stmts) != 1:
+                raise ValueError("cannot infer the type of a branch with statements")
+            x = stmts[-1][1]
+            if x[0] in ("match", "if", "iflet"):
+                return self.infer(x, env2)
+            if x[0] == "panic":
+                return None
+            saved = self.n
+            try:
+                return self.ex(x, env2)[2]
+            finally:
+                self.n = saved
+        if e[0] == "if":
+            return tail_ty(e[2], env) or (tail_ty(e[3], env) if e[3] else None)
+        if e[0] == "match":
+            sty = self.ex(e[1], env)[2]
+            for pat, body in e[2]:
+                env2 = dict(env)
+                if pat[0] == "pdata" and sty.nom in DATA_ENUMS:
+                    variants = DATA_ENUMS[sty.nom]
+                    pay = dict(variants)[pat[1][-1]]
+                    for j, b in enumerate(pat[2]):
+                        if b != "_":
+                            env2[b] = ("_", Ty(pay[j]))
+                elif pat[0] == "pctor" and pat[2] not in (None, "_") and sty.kind in ("option", "result"):
+                    env2[pat[2]] = ("_", sty.arg)
+                t = tail_ty(body, env2)
+                if t is not None:
+                    return t
+        raise ValueError("cannot infer the type of the initialiser")
 
     def lvalue(self, lhs, env):
         """-> (variable name, [field names])."""
@@ -1653,6 +1752,35 @@ class Emit:
                 term = default
                 for litv, body in reversed(out):
                     term = f"(bif {sv} == {litv} then {body}\n  else {term})"
+            elif ty.nom in DATA_ENUMS:
+                variants = DATA_ENUMS[ty.nom]
+                nslots = len(ty.arg) - 1
+                branches, default = [], None
+                for pat, body in arms:
+                    if pat[0] == "pwild":
+                        default = self.block(body, dict(env), rest)
+                        continue
+                    if pat[0] != "pdata" or TYPE_ALIASES.get(pat[1][0], pat[1][0]) != ty.nom:
+                        raise ValueError("match pattern not in the subset")
+                    vname = pat[1][-1]
+                    tag = [v for v, _ in variants].index(vname)
+                    pay = variants[tag][1]
+                    if len(pat[2]) != len(pay):
+                        raise ValueError(f"pattern {vname} with {len(pat[2])} binders")
+                    env2 = dict(env)
+                    for j, b in enumerate(pat[2]):
+                        if b != "_":
+                            env2[b] = (f"{sv}{field_path(nslots + 1, j + 1)}", Ty(pay[j]))
+                    branches.append((tag, self.block(body, env2, rest)))
+                if default is None:
+                    if {t for t, _ in branches} != set(range(len(variants))):
+                        raise ValueError("enum match is not exhaustive")
+                    default = branches[-1][1]
+                    branches = branches[:-1]
+                term = default
+                tagproj = field_path(nslots + 1, 0)
+                for tag, body in reversed(branches):
+                    term = f"(bif {sv}{tagproj} == {self.lit(tag, Ty('u8'))} then {body}\n  else {term})"
             elif ty.kind in ("option", "result"):
                 yes, no = None, None
                 for pat, body in arms:
@@ -1694,6 +1822,7 @@ class Ctx:
         self.sigs = {}      # lean name -> ([param Ty], ret Ty incl. self component)
         self.by_key = {}    # (owner, key) -> target
         self.consts, self.flags, self.enums, self.sizes, self.flag_all = {}, {}, {}, {}, {}
+        self.sizeof = {}
 
     def lookup(self, owner, key):
         return self.by_key.get((owner, key))
@@ -1736,6 +1865,22 @@ def generate(repo, outdir):
             ctx.enums[(tyname, cname)] = d.value
         if cname == "SIZE" and tyname.startswith("Size"):
             ctx.sizes[tyname] = d.value
+    # size_of::<TaskStateSegment>(): sum of the field sizes of the `repr(C, packed(4))` struct
+    try:
+        tss_src = open(os.path.join(repo, TSS)).read()
+        m = re.search(r"#\[repr\(C, packed\(4\)\)\]\s*pub struct TaskStateSegment\s*\{(.*?)\n\}", tss_src, re.S)
+        total = 0
+        for fm in re.finditer(r"^\s*(?:pub\s+)?\w+\s*:\s*([^,\n]+),", strip_comments(m.group(1)), re.M):
+            t = fm.group(1).strip()
+            am = re.match(r"\[(\w+);\s*(\d+)\]", t)
+            base, cnt = (am.group(1), int(am.group(2))) if am else (t, 1)
+            size = {"u8": 1, "u16": 2, "u32": 4, "u64": 8, "VirtAddr": 8, "PhysAddr": 8}[base]
+            if size > 4 and total % 4 != 0 or size <= 4 and total % size != 0:
+                raise ValueError("padding needed")
+            total += size * cnt
+        ctx.sizeof["TaskStateSegment"] = total
+    except Exception:       # noqa: BLE001  (the functions that need it become untranslated)
+        pass
     parsed = []
     missing = {}
     for tg in TARGETS:
